@@ -22,7 +22,7 @@ def quant(x) -> int:
                 return UNDEF
             x = x.real
         x = mp.mpf(x)
-        if not mp.isfinite(x):
+        if not mp.isfinite(x) or abs(x) > 50:  # not an angle (and would not fit 32 bits): "no value"
             return UNDEF
         return int(mp.nint(x * Q))
     except (TypeError, ValueError):
@@ -70,13 +70,16 @@ def vectors_from_invariants(M, S):
     return [p1, p2, p3]
 
 
-def geometric_angles(P):
+def geometric_angles(P, raw=False):
     """(gh, gt): 16-entry lists indexed 4*i+j of theta-hat_{i(j)} (signed: + for cyclic pairs) and
-    theta_ij (helicity angle of i in the (ij) rest frame from the flight direction of (ij))."""
+    theta_ij (helicity angle of i in the (ij) rest frame from the flight direction of (ij)).
+    raw=True: mpmath values (None where undefined) instead of quanta."""
     P = [[mp.mpf(x) for x in p] for p in P]
     tot = [sum(p[n] for p in P) for n in range(4)]
-    gh = [UNDEF] * 16
-    gt = [UNDEF] * 16
+    undef = None if raw else UNDEF
+    q = (lambda x: x) if raw else quant
+    gh = [undef] * 16
+    gt = [undef] * 16
     rest = [boost_to_rest(p, tot) for p in P]
     for i in (1, 2, 3):
         for j in (1, 2, 3):
@@ -84,13 +87,13 @@ def geometric_angles(P):
                 continue
             a = angle3(rest[i - 1], rest[j - 1])
             if a is not None:
-                gh[4 * i + j] = quant(a if j == i % 3 + 1 else -a)
+                gh[4 * i + j] = q(a if j == i % 3 + 1 else -a)
             k = 6 - i - j
-            q = [P[i - 1][n] + P[j - 1][n] for n in range(4)]
-            if _dot4(q, q) > mp.mpf(10) ** -20:
-                pi_ = boost_to_rest(P[i - 1], q)
-                pk = boost_to_rest(P[k - 1], q)
+            pq = [P[i - 1][n] + P[j - 1][n] for n in range(4)]
+            if _dot4(pq, pq) > mp.mpf(10) ** -20:
+                pi_ = boost_to_rest(P[i - 1], pq)
+                pk = boost_to_rest(P[k - 1], pq)
                 a = angle3(pi_, [-x for x in pk])
                 if a is not None:
-                    gt[4 * i + j] = quant(a)
+                    gt[4 * i + j] = q(a)
     return gh, gt
